@@ -553,7 +553,9 @@ def parallel_final_charts(draw, datamodel='lua'):
     par = State('parallel', id="p", children=regions)
     phist = None
     if draw(st.integers(0, 3)) == 0:
-        phist = hist([regions[0].id])
+        # a deep history above other histories is the recorded known-finding class (F-C01-2 / F-C02-1 / F-C05-1): excluded by
+        # construction here as in charts()
+        phist = hist([regions[0].id], deep_ok=not any(h.kind == 'history' for reg in regions for h in reg.children))
         phist.transitions[0].targets = [r.id for r in regions][:1]
         par.children.append(phist)
     # leaving and coming back through a history (or plainly)
